@@ -172,6 +172,14 @@ class System(ManagerSystem):
                 probs.append("clone.tasks differ")
             if probs:
                 issues.append(self.issue("violation", hist, op, "clone(): " + probs[0]))
+            # removing definitions in the clone leaves no trace in the original
+            sig0 = [(str(k), sorted(map(str, t.dependencies)), sorted(map(str, t.targets))) for k, t in m.tasks.items()]
+            for tid in list(c.tasks)[:3]:
+                c.unregister(tid)
+            sig1 = [(str(k), sorted(map(str, t.dependencies)), sorted(map(str, t.targets))) for k, t in m.tasks.items()]
+            probs = check_indices(m, "") if sig0 == sig1 else [f"the original's tasks changed from {sig0!r} to {sig1!r}"]
+            if probs:
+                issues.append(self.issue("violation", hist, op, "unregistering in a clone() damaged the original manager: " + probs[0]))
         except Exception as e:  # noqa
             issues.append(self.issue("violation", hist, op, f"clone() raised {type(e).__name__}: {e}"))
         # the manager's own consistency check (destructive: runs cleanup)
